@@ -6,6 +6,9 @@ pub mod c06;
 pub mod c07;
 pub mod c09;
 pub mod c10;
+pub mod c12;
+pub mod c13;
+pub mod c15;
 
 use crate::report::Run;
 
@@ -18,6 +21,9 @@ pub fn dispatch(run: &Run) -> bool {
         "C07" => c07::run(run),
         "C09" => c09::run(run),
         "C10" => c10::run(run),
+        "C12" => c12::run(run),
+        "C13" => c13::run(run),
+        "C15" => c15::run(run),
         _ => return false,
     }
     true
